@@ -161,6 +161,36 @@ class Quadratic(Member):
         return np.linalg.solve(np.eye(d) + gamma * self.A, x0 + gamma * self.A @ self.c)
 
 
+class Huber(Member):
+    """mu/2 |x-c|^2 + h(<u, x-c>) + b, h the Huber function of curvature a and threshold tau (|u| = 1):
+    a (mu + a)-smooth, mu-strongly convex function; the known worst case of many first-order methods"""
+    def __init__(self, world, a, tau, mu, c, b=0.0):
+        self.world, self.a, self.tau, self.mu, self.c, self.b = world, float(a), float(tau), float(mu), np.asarray(c, float), float(b)
+        u = world.rng.normal(size=len(c))
+        self.u = u / np.linalg.norm(u)
+
+    def _h(self, s):
+        return self.a / 2 * s * s if abs(s) <= self.tau else self.a * self.tau * abs(s) - self.a * self.tau ** 2 / 2
+    def _dh(self, s):
+        return self.a * s if abs(s) <= self.tau else self.a * self.tau * (1 if s > 0 else -1)
+    def f(self, x):
+        z = x - self.c
+        return self.mu / 2 * float(z @ z) + self._h(float(self.u @ z)) + self.b
+    def oracle(self, x):
+        z = x.v - self.c
+        return CP(self.mu * z + self._dh(float(self.u @ z)) * self.u), CE(self.f(x.v))
+    def argmin(self): return self.c.copy()
+    def prox(self, x0, gamma):
+        z0 = x0 - self.c
+        s0 = float(self.u @ z0)
+        perp = z0 - s0 * self.u
+        k = 1 + gamma * self.mu
+        s = s0 / (k + gamma * self.a)
+        if abs(s) > self.tau:
+            s = (s0 - gamma * self.a * self.tau * (1 if s0 > 0 else -1)) / k
+        return self.c + perp / k + s * self.u
+
+
 class L1(Member):
     """lam * |x - c|_1 + mu/2 |x-c|^2 + b"""
     reuse = False
@@ -364,8 +394,12 @@ class World(object):
         b = float(self.rng.normal())
         d = self.dim
         if name == "SmoothStronglyConvexFunction":
+            if r < 0.4 and L > mu and not math.isinf(L):
+                return Huber(self, L - mu, self.t * self.rng.choice([0.02, 0.05, 0.1, 0.2, 0.4]), mu, c, b)
             return Quadratic(self, self.spectrum(mu, L), c, b)
         if name == "SmoothConvexFunction":
+            if r < 0.5 and not math.isinf(L):
+                return Huber(self, L, self.t * self.rng.choice([0.02, 0.05, 0.1, 0.2, 0.4]), 0.0, c, b)
             return Quadratic(self, self.spectrum(0.0, L), c, b)
         if name == "SmoothFunction":
             return Quadratic(self, self.spectrum(-L, L), c, b)
@@ -515,7 +549,7 @@ def inexact_gradient_step(x0, f, gamma, epsilon, notion='absolute'):
 
 def exact_linesearch_step(x0, f, directions):
     if not isinstance(f, (Quadratic, CSum)):
-        raise Unsupported("line search on a non-quadratic")
+        raise Infeasible("line search on a non-quadratic member: another world is drawn")
     if isinstance(f, CSum) and not all(isinstance(m, Quadratic) for _, m in f.terms):
         raise Unsupported("line search on a non-quadratic")
     D = np.array([d.v for d in directions]).T            # dim x k
